@@ -7,6 +7,14 @@ use cedar_policy_core::extensions::Extensions;
 use serde_json::{json, Value as J};
 use std::str::FromStr;
 
+pub fn dispatch(cmd: &str, v: &J) -> Option<Result<J, String>> {
+    match cmd {
+        "eval" => Some(eval(v)),
+        "authorize" => Some(authorize(v)),
+        _ => None,
+    }
+}
+
 fn expr_of(v: &J) -> Result<Result<ast::Expr, String>, String> {
     let route = util::s(v, "route")?;
     match route {
